@@ -169,8 +169,46 @@ class Exec:
             for s2, vs in self.ev_seq(node.values, s):
                 yield s2, dict(zip(ks, vs))
     def ev_JoinedStr(self, node, st): raise Unsupported("f-string")
-    def ev_ListComp(self, node, st): yield st, Opaque()
-    def ev_GeneratorExp(self, node, st): yield st, Opaque()
+    def _comprehension(self, node, st):
+        """evaluate a single-generator comprehension over a concrete iterable with concrete conditions; None if not possible"""
+        if len(node.generators) != 1 or node.generators[0].is_async: return None
+        g = node.generators[0]
+        try:
+            res = list(self.ev(g.iter, st))
+        except Unsupported:
+            return None
+        if len(res) != 1 or isinstance(res[0][1], Raise) or res[0][0] is not st: return None
+        it = res[0][1]
+        if isinstance(it, dict): it = list(it.keys())
+        if not isinstance(it, (list, tuple, set, frozenset, str)) or isinstance(it, Opaque): return None
+        out = []
+        env = st.frames[-1].env; saved = dict(env)
+        try:
+            for x in list(it):
+                r = list(self.assign(st, g.target, x))
+                if len(r) != 1 or r[0][1][0] != "next": return None
+                keep = True
+                for cond in g.ifs:
+                    cr = list(self.ev(cond, st))
+                    if len(cr) != 1 or isinstance(cr[0][1], (Raise, Sym, Opaque)) or cr[0][0] is not st: return None
+                    if not cr[0][1]: keep = False; break
+                if not keep: continue
+                er = list(self.ev(node.elt, st))
+                if len(er) != 1 or isinstance(er[0][1], Raise) or er[0][0] is not st: return None
+                out.append(er[0][1])
+        except Unsupported:
+            return None
+        finally:
+            for k in list(env):
+                if k not in saved: del env[k]
+            env.update(saved)
+        return out
+    def ev_ListComp(self, node, st):
+        r = self._comprehension(node, st)
+        yield st, (Opaque() if r is None else r)
+    def ev_GeneratorExp(self, node, st):
+        r = self._comprehension(node, st)
+        yield st, (Opaque() if r is None else r)
 
     def ev_Attribute(self, node, st):
         for s, base in self.ev(node.value, st):
@@ -181,9 +219,10 @@ class Exec:
         if isinstance(base, ModRef):
             if base.name in ("errors", "ranges", "fields", "checks", "data", "interface", "validio", "rowio", "_tools", "_compat", "sql"):
                 yield st, self.lookup_global(S.module(base.name), attr); return
-            if base.name in ("token", "tokenize", "string"):
+            if base.name in ("token", "tokenize", "string", "csv", "xlrd", "os", "sys"):
                 import importlib
-                v = getattr(importlib.import_module(base.name), attr, None)
+                try: v = getattr(importlib.import_module(base.name), attr, None)
+                except ImportError: v = None
                 if isinstance(v, (int, str)) and not isinstance(v, bool): yield st, v; return
             yield st, BuiltinRef(base.name + "." + attr); return
         if isinstance(base, Ref):
@@ -594,6 +633,9 @@ class Exec:
         return env
 
     def instantiate(self, st, info, args, kw):
+        cc = self.contracts.get("class:" + info.name)
+        if cc is not None and not (self.current_fn or "").endswith("." + info.name + ".__init__"):
+            yield from cc(self, st, info, args, kw); return
         ref = Ref(info.name); st.heap[ref.oid] = {}
         k, init = S.lookup_method(info, "__init__")
         if init is None:
